@@ -677,3 +677,45 @@ c@K@(): () == {
 
 
 FAMILIES.update({'F2': f2, 'F8': f8, 'F9': f9})
+
+
+def f7m(tier):
+    """exceptions thrown out of multi-valued calls inside a try (with and without a value), callee chosen at run time"""
+    C = []
+    for sel in ('direct', 'value'):
+        for tryk in ('value', 'void', 'nested'):
+            for pat in ((2, 'A'), (3, 'B'), (9, 'A')):
+                lim, ex = pat
+                other = 'B' if ex == 'A' else 'A'
+                defs = '''mvp@K@(n: MachineInteger): (MachineInteger, MachineInteger) == { import from MachineInteger; (n, n + 1) }
+mvt@K@(n: MachineInteger): (MachineInteger, MachineInteger) == { import from MachineInteger; n > %d => throw VEx%s; n = 1 => throw VEx%s; (n * 10, n) }
+''' % (lim, ex, other)
+                call = 'mvt@K@(i)' if sel == 'direct' else 'hf(i)'
+                pick = '' if sel == 'direct' else '\t\thf: MachineInteger -> (MachineInteger, MachineInteger) := if i rem 2 = 0 then mvp@K@ else mvt@K@;\n'
+                if tryk == 'value':
+                    body = '\t\tr: MachineInteger := try { (a, b) := %s; a + b } catch E in { E has VExnA => -1; E has VExnB => -2; throw E };\n\t\tpIMI("K@K@:", r);\n' % call
+                elif tryk == 'void':
+                    body = '\t\tr: MachineInteger := 0;\n\t\ttry { (a, b) := %s; r := a + b } catch E in { E has VExnA => { r := -1 }; E has VExnB => { r := -2 }; throw E };\n\t\tpIMI("K@K@:", r);\n' % call
+                else:
+                    body = ('\t\tr: MachineInteger := try { try { (a, b) := %s; a + b } catch E in { E has VExnB => -2; throw E } finally pIMI("K@K@:", 77) } '
+                            'catch F in { F has VExnA => -1; throw F };\n\t\tpIMI("K@K@:", r);\n' % call)
+                text = defs + 'c@K@(): () == {\n\timport from MachineInteger;\n\tfor i in 1..5 repeat {\n' + pick + body + '\t}\n}\n'
+                exp = []
+                for i in range(1, 6):
+                    def mvt(n):
+                        if n > lim:
+                            return ex
+                        if n == 1:
+                            return other
+                        return n * 10 + n
+                    def mvp(n):
+                        return n + n + 1
+                    v = mvt(i) if (sel == 'direct' or i % 2 == 1) else mvp(i)
+                    if tryk == 'nested':
+                        exp.append('77')
+                    exp.append(str({'A': -1, 'B': -2}.get(v, v)))
+                C.append(raw(text, exp))
+    return C
+
+
+FAMILIES.update({'F7M': f7m})
